@@ -31,14 +31,28 @@ def ensure_next(iterable: Iterable[bytes]) -> Iterable[bytes]:
     # Iterate over one iterator only: `iter(a_list)` starts from the beginning
     # every time it is called.
     iterator = iter(iterable)
+    # PEP 3333: whoever consumes the iterable an application returned has to
+    # call its `close()` when the request is over, however it ends.
+    close = getattr(iterable, "close", None)
     try:
         first_chunk = next(iterator)
     except StopIteration:  # the application yields nothing at all
+        if close is not None:
+            close()
         return ()
+    except BaseException:
+        if close is not None:
+            close()
+        raise
 
     def generator():
-        yield first_chunk
-        yield from iterator
+        try:
+            yield first_chunk
+            for chunk in iterator:
+                yield chunk
+        finally:
+            if close is not None:
+                close()
 
     return generator()
 
